@@ -58,6 +58,7 @@ def draw_smc_scenario(
     sampler="smc",
     flow_kinds=("latent", "native"),
     train_shift=(0.5, 2.0),
+    hard=False,
 ):
     rng = rng_from(seed)
     kind = pick(rng, list(kinds))
@@ -109,6 +110,13 @@ def draw_smc_scenario(
         seeds={"rng": int(rng.integers(1 << 30)), "entropy": int(rng.integers(1 << 30)),
                "train": int(rng.integers(1 << 30)), "torch": int(rng.integers(1 << 30))},
     )
+    if hard:
+        # a proposal well off the posterior and a demanding ESS target: more tempering iterations, hence more
+        # checkpoints and more distinct durable states per run
+        scn["train"]["shift"] = float(rng.uniform(2.0, 3.5)) * float(pick(rng, [-1, 1]))
+        scn["flow"]["inflate"] = float(rng.uniform(1.0, 1.3))
+        if sk.get("adaptive", True) and not isinstance(sk.get("target_efficiency"), list):
+            sk["target_efficiency"] = float(np.round(rng.uniform(0.6, 0.9), 3))
     scn["_schedule_mode"] = mode
     scn["_precond"] = pc
     return scn
